@@ -96,6 +96,37 @@ fn gen_c13(tier: &str, rng: &mut Rng, emit: &mut dyn FnMut(Op)) {
                 emit(Op::new("digest.hash", &[alg.to_string().as_bytes(), mode.as_bytes(), s.as_bytes(), d]));
             }
         }
+        // the string entry point hashes the string's bytes, all of them: a leading byte order mark,
+        // blanks, NUL and a trailing newline are data
+        for t in ["\u{feff}hello world", "\u{feff}", "\u{feff}\u{feff}x", "x\u{feff}", " hello ", "hello\n", "\nhello", "\0", "a\0b", "\r\n",
+            "\u{fffe}", "\u{feff}$NetBSD$\n"] {
+            for mode in ["s", "f", "p"] {
+                emit(Op::new("digest.hash", &[alg.to_string().as_bytes(), mode.as_bytes(), b"", t.as_bytes()]));
+            }
+        }
+        // very long lines: the marker counts wherever it stands in the line (around and beyond any
+        // plausible buffer size), and a long line without one is kept whole
+        let long_cases: Vec<(usize, Option<usize>)> = if thorough {
+            vec![(70000, Some(69000)), (70000, Some(65530)), (70000, Some(65533)), (70000, Some(65536)), (70000, None), (70000, Some(0)),
+                (140000, Some(131070)), (9000, Some(8190)), (9000, Some(8192)), (33000, Some(32766))]
+        } else {
+            // one algorithm per long case in the quick tier
+            [(70000, Some(69000)), (70000, Some(65533)), (70000, None), (9000, Some(8190)), (33000, Some(32766)), (70000, Some(65536))]
+                .iter().cloned().enumerate().filter(|(i, _)| i % 6 == alg).map(|(_, c)| c).collect()
+        };
+        for (len, at) in long_cases {
+            let mut line: Vec<u8> = (0..len).map(|i| b"abcdefghij klmnop"[i % 17]).collect();
+            if let Some(k) = at {
+                let m = b"$NetBSD: x $";
+                let k = k.min(len - m.len());
+                line[k..k + m.len()].copy_from_slice(m);
+            }
+            let mut d: Vec<u8> = b"first\n".to_vec();
+            d.extend(&line);
+            d.extend(b"\nlast\n");
+            let sched = if rng.chance(1, 2) { "" } else { "8192,8192,1,65536" };
+            emit(Op::new("digest.hash", &[alg.to_string().as_bytes(), b"p", sched.as_bytes(), &d]));
+        }
         // Interrupted at every read index of a small input
         let d = data(rng, 40, true);
         for k in 0..8 {
